@@ -11,6 +11,7 @@ pub mod c03_limits;
 pub mod c06_convert;
 pub mod c12_sequence;
 pub mod c13_keys;
+pub mod c16_password;
 pub mod c22_keepalive;
 pub mod c23_revise;
 pub mod c24_queue;
